@@ -193,9 +193,25 @@ func checkC04SuggestedAgreement(c *Ctx) {
 	n := 0
 	for _, call := range callsTo(CC, false, "core.CoordinatesLine") {
 		args := call.Common().Args
-		if t, fld, ok := fieldOf(args[0]); ok && t == "display.Engine" && fld == "suggested" {
+		// the line measured is &e.suggested, handed over directly or through a local pointer (a phi with that edge):
+		// the options that count are those known where the address is taken
+		var sites []ssa.Instruction
+		isSugg := func(v ssa.Value) bool {
+			t, fld, ok := fieldOf(v)
+			return ok && t == "display.Engine" && fld == "suggested"
+		}
+		if isSugg(args[0]) {
+			sites = append(sites, call.(ssa.Instruction))
+		} else if ph, isPhi := args[0].(*ssa.Phi); isPhi {
+			for _, e := range ph.Edges {
+				if fa, isFA := e.(*ssa.FieldAddr); isFA && isSugg(fa) {
+					sites = append(sites, fa)
+				}
+			}
+		}
+		for _, site := range sites {
 			n++
-			for fc := range factsAt(bf, call) {
+			for fc := range factsAt(bf, site) {
 				if cl, isC := fc.Cond.(*ssa.Call); isC && fc.Val && strings.HasSuffix(calleeName(cl), ".GetBool") && len(cl.Call.Args) > 1 {
 					if s, isS := constString(cl.Call.Args[1]); isS {
 						measured[s] = true
